@@ -24,6 +24,8 @@ PROPS["C06"] = dict(
         "Zrnt.Proofs.C06.unshuffle_shuffle",
         "Zrnt.Proofs.C06.shuffleList_perm",
         "Zrnt.Proofs.C06.unshuffleList_perm",
+        "Zrnt.Proofs.C06.permuteIndex_eq_spec_sha256",
+        "Zrnt.Proofs.C06.lists_eq_spec_sha256",
     ],
     modes=[dict(name="shuffle")],
     level="proof",
